@@ -338,3 +338,19 @@ pub fn verif_tcp_counts(host: HostId) -> (usize, usize, usize, usize, usize) {
 pub fn verif_tcp_dump() -> String {
     CURRENT.with(|c| format!("{:?}", c.borrow().as_ref().expect("no Net installed")))
 }
+
+/// Verification hook (area nettable): shrink (or move) the ephemeral
+/// port range of one host, e.g. `49152..=49155`, so that allocator
+/// wrap-around and exhaustion are reachable in a few binds. Call it
+/// right after `Net::enter`, before the host opens any socket.
+/// Panics if no `Net` is installed.
+#[cfg(turmoil_verif)]
+pub fn verif_table_set_ephemeral_range(host: HostId, lo: u16, hi: u16) {
+    CURRENT.with(|c| {
+        let mut cell = c.borrow_mut();
+        let net = cell.as_mut().expect("no Net installed");
+        net.fabric
+            .kernel_mut(host)
+            .verif_table_set_ephemeral_range(lo..=hi);
+    })
+}
